@@ -36,7 +36,7 @@ def cases(draw, tier="quick"):
         case["drop_first"] = draw(st.sampled_from(["o", "c"]))
         case["drop_at"] = draw(st.integers(0, len(post)))
     elif kind == "cz":
-        case["cz"] = [(draw(st.sampled_from([1, 2, 4, 5, 6])), 0, draw(st.integers(1, 10 ** 6)), draw(st.sampled_from([16, 100, 4096, 5000, 65536])), draw(st.integers(0, 1)))
+        case["cz"] = [(draw(st.sampled_from([1, 2, 4, 5, 6])), draw(st.one_of(st.just(0), st.integers(1, 40000), st.integers(1, 40000))), draw(st.integers(1, 10 ** 6)), draw(st.sampled_from([16, 100, 4096, 5000, 65536])), draw(st.integers(0, 1)))
                       for _ in range(draw(st.integers(1, 4)))]
     else:
         case["xw"] = [(draw(st.integers(1, 10 ** 6)), draw(st.integers(0, 40)), draw(st.integers(0, 10)), draw(st.integers(0, 40)), draw(st.integers(0, 1)))
@@ -82,6 +82,8 @@ def check_case(case, opts):
         if r.rc == 3 or "MISMATCH" in out:
             m = [l for l in out.splitlines() if l.startswith("MISMATCH")]
             raise Violation("copy is not equivalent / independent (%s): %s" % (case["kind"], m[0] if m else out[:200]), prog, sig="copy-differs")
+        if "SKIP" in out:
+            raise Inconclusive("compressor rejects the generated option set")
         if r.rc != 0:
             raise Violation("harness exit %s: %s" % (r.rc, (out + r.err.decode(errors="replace"))[-400:]), prog, sig="harness")
         nontrivial = True
